@@ -26,42 +26,49 @@ theorem lookup_contains_key (c c' : Cache) (pd : PD) (key : Bytes) (r : Region)
       rw [← h.2]
       exact findRegionByKey_spec (isEnd := false) (fun e he => by simpa [inRegion] using loadRegion_contains he) hf
 
-/-- full statement for LocateEndKey: the returned location contains the key by its end (start < key <= end, the empty
-    key being the point at +∞, as `Region.ContainsByEnd` and the reverse scanner read it).  FALSE: see below. -/
-def lookup_contains_end_key : Prop :=
-  ∀ (c c' : Cache) (pd : PD) (key : Bytes) (r : Region), (∀ p ∈ pd, p.r.wf) →
-    locateEndKey c pd key = (c', .ok r) → r.containsByEnd key = true
-
 def pd2 : PD := [⟨⟨1, [], some [103], 1, 0⟩, 1, [1, 2, 3]⟩, ⟨⟨2, [103], none, 1, 0⟩, 1, [1, 2, 3]⟩]
 
-/-- S9: with two regions, LocateEndKey("") from a cold cache answers the FIRST region, which does not contain +∞ -/
-theorem not_lookup_contains_end_key : ¬ lookup_contains_end_key := by
-  intro h
-  have := h Cache.empty (locateEndKey Cache.empty pd2 []).1 pd2 [] ⟨1, [], some [103], 1, 0⟩
-    (by intro p hp; simp [pd2] at hp; rcases hp with rfl | rfl <;> simp [Region.wf] <;> decide)
-    rfl
-  revert this
-  decide
-
-/-- LocateEndKey for a non-empty key: the returned location contains the key by its end -/
-theorem lookup_contains_end_key_partial (c c' : Cache) (pd : PD) (key : Bytes) (r : Region)
-    (hwf : ∀ p ∈ pd, p.r.wf) (hk : key ≠ [])
-    (h : locateEndKey c pd key = (c', .ok r)) : r.containsByEnd key = true := by
+/-- LocateEndKey (as of /repo f67ac70), full strength: whenever it answers, the location contains the key by its end
+    (start < key <= end); the empty key is the point at +∞ and is contained exactly by a region with an unbounded end.
+    Every cache state.  Assumed of PD: its regions are well-formed (start < end); nothing else — that the walk of
+    `findLastRegion` reaches a region with an empty end key is not assumed: if PD never returns one the model runs out
+    of fuel / PD rounds and answers an error, for which nothing is claimed.
+    (Before f67ac70 this was FALSE for the empty key: the first region came back — finding S9.) -/
+theorem lookup_contains_end_key (fuel : Nat) (c c' : Cache) (pd : PD) (key : Bytes) (r : Region)
+    (hwf : ∀ p ∈ pd, p.r.wf)
+    (h : locateEndKey fuel c pd key = (c', .ok r)) : r.containsByEnd key = true := by
   unfold locateEndKey at h
-  cases hf : findRegionByKey c pd key true with
-  | mk c1 res =>
-    rw [hf] at h
-    cases res with
-    | error x => simp [Except.map] at h
-    | ok e =>
-      simp only [Except.map, Prod.mk.injEq, Except.ok.injEq] at h
-      rw [← h.2]
-      exact findRegionByKey_spec (isEnd := true)
-        (fun e he => by simpa [inRegion] using loadRegion_containsByEnd hwf hk he) hf
+  by_cases hk : key.isEmpty = true
+  · simp only [hk, if_true] at h
+    cases hf : findLastRegion fuel c pd with
+    | mk c1 res =>
+      rw [hf] at h
+      cases res with
+      | error x => simp [Except.map] at h
+      | ok e =>
+        simp only [Except.map, Prod.mk.injEq, Except.ok.injEq] at h
+        rw [← h.2]
+        unfold Region.containsByEnd
+        simp only [hk, if_true]
+        exact findLastRegion_spec hf
+  · simp only [hk, Bool.false_eq_true, if_false] at h
+    have hk' : key ≠ [] := by intro h0; simp [h0] at hk
+    cases hf : findRegionByKey c pd key true with
+    | mk c1 res =>
+      rw [hf] at h
+      cases res with
+      | error x => simp [Except.map] at h
+      | ok e =>
+        simp only [Except.map, Prod.mk.injEq, Except.ok.injEq] at h
+        rw [← h.2]
+        exact findRegionByKey_spec (isEnd := true)
+          (fun e he => by simpa [inRegion] using loadRegion_containsByEnd hwf hk' he) hf
 
-example : (∀ p ∈ pd2, p.r.wf) ∧ ([103] : Bytes) ≠ [] ∧
-    (locateEndKey Cache.empty pd2 [103]).2 = .ok ⟨1, [], some [103], 1, 0⟩ := by
-  refine ⟨?_, by decide, rfl⟩
+/-- the former S9 scenario: two regions, cold cache, LocateEndKey("") now answers the LAST region; and a non-empty key -/
+example : (∀ p ∈ pd2, p.r.wf) ∧
+    (locateEndKey 8 Cache.empty pd2 []).2 = .ok ⟨2, [103], none, 1, 0⟩ ∧
+    (locateEndKey 8 Cache.empty pd2 [103]).2 = .ok ⟨1, [], some [103], 1, 0⟩ := by
+  refine ⟨?_, rfl, rfl⟩
   intro p hp; simp [pd2] at hp; rcases hp with rfl | rfl <;> simp [Region.wf] <;> decide
 
 /-! ## multi-region lookups -/
